@@ -21,8 +21,9 @@ func init() {
 	)
 }
 
-func c04Acceptance(r *Run) {
-	const rule = "C04-R2-acceptance"
+func c04Acceptance(r *Run) { c04AcceptanceAs(r, "C04-R2-acceptance") }
+
+func c04AcceptanceAs(r *Run, rule string) {
 	w := r.W
 	e := newBndEngine(w, "c04-accept", c04Fragment(w), nil)
 	capV := w.ConstInt("hsms", "maxHSMSMsgLen")
